@@ -1,17 +1,9 @@
 #![no_main]
-//! C13: whatever load_mem accepts is handed to every read-only query.
+//! libFuzzer front end of the 'queries' target; the decoding of the bytes into worker calls lives in lv::props::fuzzdec
+//! (shared with the confirmation step of the thorough tier). Any panic (overflow checks are on), abort, stack
+//! overflow, timeout or out-of-memory is a libFuzzer artifact, which the check re-runs in the isolated worker.
 use libfuzzer_sys::fuzz_target;
-use lv::props::entries::run_queries;
 
 fuzz_target!(|data: &[u8]| {
-    if data.len() > 65536 {
-        return;
-    }
-    if let Ok(doc) = lopdf_load(data) {
-        let _ = run_queries(&doc);
-    }
+    lv::props::fuzzdec::fuzz_one("queries", data);
 });
-
-fn lopdf_load(data: &[u8]) -> Result<lv::LopdfDocument, ()> {
-    lv::load_for_fuzz(data)
-}
